@@ -95,6 +95,9 @@ class Plan:
         self.locals = []              # local leaf type names
         self.block_order = None       # permutation of global block indices for printing
         self.inherent_ty = None       # inherent mode: (name, generics decl text)
+        self.body_paths = False       # fn bodies mention `Self::<item>` / `<Self>::<item>` paths (expansion-level checks only: in a trait
+                                      # family rustc finds such a path ambiguous between the trait and its helper, E0034)
+        self.trait_extra_items = ""   # further items of the trait definition, verbatim (methods with non-identifier argument patterns)
         self.notes = {}
 
     # ------------------------------------------------------------------ blocks
@@ -196,6 +199,15 @@ class Plan:
             if m.patch.get("vis_flip") == name:
                 vis = "" if vis else "pub "      # C14: one item with another visibility than in the sibling blocks
             tag = f"b{bi}.{name}" if m.tag_as is None else f"{m.tag_as}.{name}"
+            if self.body_paths and kind in ("fn", "method", "ufn"):
+                # the user's body is kept verbatim whatever it mentions (seeded change C01g rewrote `Self::<item>` paths)
+                nm = [n_ for k_, n_, _ in self.items if k_ in ("const", "fn", "ufn")]
+                refs = " ".join(f"let _ = Self::{n_};" for n_ in nm[:2]) + (f" let _ = <Self>::{nm[0]}; let _ = Self::{nm[0]}.len();" if nm else "")
+                tag = tag + '" } else { ' + refs + ' "' + tag      # closes the string: `{ if true { "tag" } else { …; "tag" } }`
+                rcv = "&self" if kind == "method" else ""
+                uns_ = "unsafe " if kind == "ufn" else ""
+                out.append(f'{vis}{uns_}fn {name}({rcv}) -> &\'static str {{ if true {{ "{tag}" }} }}')
+                continue
             if kind == "const":
                 out.append(f'{vis}const {name}: &\'static str = "{tag}";')
             elif kind == "type":
@@ -263,7 +275,7 @@ class Plan:
                     # the parameter as a PATH PREFIX in expression position inside a default body
                     items.append(f'fn {name}() -> &\'static str {{ let _x = {tp0}::default(); "dflt.{name}" }}')
         uns = "unsafe " if self.trait_unsafe else ""
-        return f"{self.trait_vis}{uns}trait {self.trait_name}{gtxt}{self.trait_supers}{self.trait_where} {{ {self.trait_inner}{' '.join(items)} }}"
+        return f"{self.trait_vis}{uns}trait {self.trait_name}{gtxt}{self.trait_supers}{self.trait_where} {{ {self.trait_inner}{' '.join(items)}{self.trait_extra_items} }}"
 
     def order(self):
         n = len(self.blocks())
@@ -660,6 +672,15 @@ class PlanGen:
                 pl, extra = self.payload(np_, generic_payloads and not plan.dtraits[k.dt].lifetimes)
                 np_ += extra
                 row.append(pl)
+            if theta and generic_payloads and r.random() < 0.4:
+                # the binding of a NESTED member mentions the very expression its header instantiates the family's parameter with
+                # (`impl<U> Kita for Vec<U> where Vec<U>: D<G = W1<Vec<U>>>`): the row must hold the member's own binding, not a
+                # re-expression of it over the family's parameters (seeded change C11g)
+                cand = [ki for ki, (k, e) in enumerate(zip(keys, row)) if e is not None and not params_of(e) and not plan.dtraits[k.dt].lifetimes]
+                if cand:
+                    ki = self.pick(cand)
+                    img = list(theta.values())[0][1]
+                    row[ki] = ("ctor", "W1", [("aty", img)]) if r.random() < 0.6 else ("tuple", [img, leaf(self.pick(MARKERS))])
             if any(_rows_unify(row, other) for other in rows):
                 continue
             rows.append(row)
@@ -978,6 +999,46 @@ class PlanGen:
         plan.probes.append((self.local(plan), self.default_targs(plan)))
         plan.probes.append(("i32", self.default_targs(plan)))
         self.finish_world(plan)
+
+    def sibling_groups_plan(self):
+        """directed shape (seeded change C05g): a root header `T` and two sibling sub-headers `A<T>`, `B<T>` that dispatch on ANOTHER trait than
+        the root (so each forms a family of its own), plus a block with header `B<A<T>>` — generalised by the root and by `B<T>` but not by
+        `A<T>` — that can only join `B<T>`'s family. The scan over the families formed so far must skip the non-generalising `A<T>` family,
+        whichever order the blocks come in."""
+        r = self.r
+        plan = Plan()
+        plan.dtraits = [DTrait("D0"), DTrait("D1")]
+        plan.items = [("const", "NAME", False)] + ([("fn", "tag", False)] if r.random() < 0.4 else [])
+        wa, wb = r.sample(["Vec", "Option", "W1", "Box"], 2)
+        A = lambda t: ("ctor", wa, [("aty", t)])
+        B = lambda t: ("ctor", wb, [("aty", t)])
+        T0 = ("tp", 0)
+        marks = r.sample(MARKERS, min(4, len(MARKERS)))
+
+        def mem(theta, mark):
+            m = Member(theta, [leaf(mark)], 1)
+            m.names = self.names(1)
+            m.inline = {0: not theta and r.random() < 0.5}
+            return m
+        root = Family(T0, [], 1, [Key(T0, 0, [], "G")], [mem({}, marks[0])] + ([mem({}, marks[1])] if r.random() < 0.5 else []))
+        for m in root.members:
+            m.inline = {0: r.random() < 0.5}
+        fa = Family(A(T0), [], 1, [Key(A(T0), 1, [], "G")], [mem({}, marks[0])])
+        fb = Family(B(T0), [], 1, [Key(B(T0), 1, [], "G")], [mem({}, marks[1]), mem({0: ("ty", A(T0))}, marks[2])])
+        for f_ in (fa, fb):
+            for m in f_.members:
+                m.inline = {0: False}
+        plan.families = [root, fa, fb]
+        plan.notes["directed"] = "sibling sub-headers in families of their own; a doubly nested block joins the later sibling"
+        plan.notes["keep_plain"] = True
+        self.populate(plan)
+        # a second instance of `B<A<_>>`, served by the plain `B<T>` block: the projection `<B<A<X>> as D1>::G` is then not normalisable, and
+        # only the family (one helper trait for both blocks) tells the doubly nested block from the plain one
+        ty = pr(subst(B(A(T0)), {0: ("ty", leaf(self.local(plan)))}))
+        self.add_world(plan, 1, [], ty, "G", marks[1])
+        plan.probes.append((ty, []))
+        self.finish_world(plan)
+        return plan
 
     def shifted_nested_plan(self):
         """directed shape (seeded change C01d): a family over 2-3 positions keyed on a LATER position, plus nested members whose
@@ -1642,6 +1703,51 @@ class PlanGen:
                 plan.probes.append(self.witness(plan, 0, mi))
             m.unsized = saved
         plan.probes.append(("str", self.default_targs(plan)))
+        self.finish_world(plan)
+        return plan
+
+    def unsized_shifted_plan(self):
+        """directed shape (seeded change C15g): a family over three positions `(S, Box<T>, Box<U>)` keyed on a LATER position whose general
+        block relaxes `Sized` on the key parameter (and maybe on the last one), plus a nested block fixing the FIRST position to a concrete
+        type: its canonical numbers are shifted against the family's (`_1` of the family is `_0` of the nested block), so a relaxed
+        parameter of the family must never be looked up in the nested block's numbering (or the other way round)."""
+        r = self.r
+        plan = Plan()
+        plan.dtraits = [DTrait("D0")]
+        plan.items = [("const", "NAME", False)]
+        bx = lambda t: ("ctor", self.pick(["Box", "W1"]), [("aty", t)])
+        b1, b2 = bx(("tp", 1)), bx(("tp", 2))
+        hdr = self.pick([("tuple", [("tp", 0), b1, b2]), ("ctor", "W2", [("aty", ("tp", 0)), ("aty", ("tuple", [b1, b2]))])])
+        kp = self.pick([1, 1, 2])
+        keys = [Key(("tp", kp), 0, [], "G")]
+        marks = r.sample(MARKERS, 3)
+        gen = Member({}, [leaf(marks[0])], 3)
+        gen.unsized = {kp} | ({3 - kp} if r.random() < 0.4 else set())
+        nested = Member({0: ("ty", leaf(self.pick(["u32", "u16", "String"])))}, [leaf(marks[1])], 3)
+        nested.unsized = self.pick([set(), set(), {kp}, {3 - kp}])
+        members = [gen, nested]
+        if r.random() < 0.4:
+            third = Member({}, [leaf(marks[2])], 3)
+            third.unsized = self.pick([set(), {kp}])
+            members.append(third)
+        for m in members:
+            m.names = self.names(3)
+            m.inline = {0: r.random() < 0.6}
+            m.unsized_where = r.random() < 0.4
+        if r.random() < 0.5:
+            members.reverse()
+        plan.families = [Family(hdr, [], 3, keys, members)]
+        plan.notes["directed"] = "relaxed key parameter in a family with a shifted nested member"
+        plan.notes["keep_plain"] = True
+        plan.world, plan.plain, plan.probes = [], [], []
+        for mi, m in enumerate(members):
+            saved = m.unsized
+            m.unsized = set()
+            plan.probes.append(self.witness(plan, 0, mi))
+            m.unsized = {1, 2}
+            for _ in range(2):
+                plan.probes.append(self.witness(plan, 0, mi))
+            m.unsized = saved
         self.finish_world(plan)
         return plan
 
